@@ -42,6 +42,10 @@ CHECKS = {
                 technique="runtime monitoring of the bytes received by the scripted peer: independent strict request parser (cross-checked with httparse), de-chunking reference decoder and a value model of the builder calls as oracle, over generated builder programs and custom Body programs with write faults",
                 text="Generated programs of builder calls and user-defined streaming bodies (arbitrary sequences of write/write_all/flush/empty write/write_vectored, BufWriter-wrapped or not) are sent; the bytes on the connection must decode as exactly one request whose method, percent-decoded path, query pairs, per-name header lists, credentials and de-framed body equal the inputs, with consistent framing and exactly one Connection: close, under short-write and Interrupted schedules.",
                 note="Trusts the harness's request parser / value model (written from the documentation of the builder methods). Host is judged by C08; multipart part decoding by C15."),
+    "C08": dict(cat="exploration", design="DESIGN.md §3 C08",
+                technique="runtime monitoring over a bounded-exhaustive configuration matrix: dial log of hook H1 plus the request bytes received by the peer (decrypted by a live TLS server behind the scripted CONNECT reply for tunnelled rows), reference decision function as oracle",
+                text="All 27 648 combinations of scheme, host kind (domain/IDN/IPv4/IPv6), port form, path, query, fragment, URL userinfo, proxy kind, proxy userinfo/port and caller-set Host are sent; the address handed to the connector and the request target / Host field seen by the peer must equal what the reference function derives from the statement.",
+                note="The quick tier runs a stride of the tunnelled rows (each needs a TLS handshake), the thorough tier all of them. The Host field of proxied plain-http requests is recorded, not judged."),
 }
 
 NOT_APPLICABLE = {}
